@@ -612,6 +612,16 @@ func (e *SpecEnv) evalCall(x *ast.CallExpr) Term {
 		m := e.eval(arg(0))
 		mi := vc.mapInfo(m.T)
 		return boolTerm(vc.cardFacts(e.st, mi, m.S))
+	case "subsetcard":
+		// trusted finite-set fact for two maps with the same key type:
+		// dom(a) subset dom(b)  ==>  |a| <= |b|  and  (|a| = |b| ==> dom(b) subset dom(a))
+		a, b := e.eval(arg(0)), e.eval(arg(1))
+		ma, mb := vc.mapInfo(a.T), vc.mapInfo(b.T)
+		da, db := vc.mapDom(e.st, ma, a.S), vc.mapDom(e.st, mb, b.S)
+		ca, cb := vc.mapCard(e.st, ma, a.S), vc.mapCard(e.st, mb, b.S)
+		sub := fmt.Sprintf("(forall ((k!s %s)) (=> (select %s k!s) (select %s k!s)))", ma.ks, da, db)
+		sup := fmt.Sprintf("(forall ((k!s %s)) (=> (select %s k!s) (select %s k!s)))", ma.ks, db, da)
+		return boolTerm(fmt.Sprintf("(and (=> %s (and (<= %s %s) (=> (= %s %s) %s))) (=> %s (<= %s %s)))", sub, ca, cb, ca, cb, sup, sup, cb, ca))
 	case "domof":
 		m := e.eval(arg(0))
 		mi := vc.mapInfo(m.T)
